@@ -121,6 +121,13 @@ def c16_run(ctx):
                     problems.append((f"operand-modified:{tag}:reduction", f"a reduction/operator changed its {tag} operand {sig}"))
         if len(samples) < 2:
             samples.append({"sig": sig, "flavor": fl, "first_row": rows[0], "backends": list(makers)})
+    # every operator / ufunc form (abs, **, numpy.power/sqrt/cbrt/square, * / unary -, + - @ == !=) with operand snapshots
+    from harness import backends
+    obad, ost = backends.operator_value_lattice(ctx)
+    n_calls += ost["operator_forms"]
+    for a_, b_, k_ in obad:
+        if k_.startswith("operand-modified"):
+            problems.append((k_, f"{a_}: {b_}"))
     return problems, {"calls_with_snapshot": n_calls}, samples
 
 
@@ -162,7 +169,17 @@ def c17_run(ctx):
             cases = [("np1d-all", lambda: a1.sum(), [carts]), ("np1d-numpy.sum", lambda: numpy.sum(a1), [carts]),
                      ("np2d-axis0", lambda: numpy.sum(a2, axis=0), [[carts[j], carts[j + 3]] for j in range(3)]),
                      ("np2d-axis1", lambda: a2.sum(axis=1), [carts[:3], carts[3:]]),
-                     ("np2d-axis1-keepdims", lambda: numpy.sum(a2, axis=1, keepdims=True), [carts[:3], carts[3:]])]
+                     ("np2d-axis1-keepdims", lambda: numpy.sum(a2, axis=1, keepdims=True), [carts[:3], carts[3:]]),
+                     # every spelling of "all axes" and of one axis, function and method form, on 2-D and 3-D arrays
+                     ("np2d-numpy.sum-noaxis", lambda: numpy.sum(a2), [carts]), ("np2d-method-noaxis", lambda: a2.sum(), [carts]),
+                     ("np2d-numpy.sum-axisNone", lambda: numpy.sum(a2, axis=None), [carts]),
+                     ("np2d-numpy.sum-noaxis-keepdims11", lambda: numpy.sum(a2, keepdims=True), [carts]),
+                     ("np2d-axis-1", lambda: numpy.sum(a2, axis=-1), [carts[:3], carts[3:]]),
+                     ("np2d-method-axis0", lambda: a2.sum(axis=0), [[carts[j], carts[j + 3]] for j in range(3)]),
+                     ("np2d-axis-tuple", lambda: numpy.sum(a2, axis=(0, 1)), [carts]),
+                     ("np3d-numpy.sum-noaxis", lambda: numpy.sum(a1.reshape(1, 2, 3)), [carts]),
+                     ("np3d-axis2", lambda: numpy.sum(a1.reshape(1, 2, 3), axis=2), [carts[:3], carts[3:]]),
+                     ("np2d-axis0-keepdims13", lambda: a2.sum(axis=0, keepdims=True), [[carts[j], carts[j + 3]] for j in range(3)])]
             for name, f, groups in cases:
                 n += 1
                 try:
@@ -178,6 +195,12 @@ def c17_run(ctx):
                 got = list(zip(*got_cols))
                 if name.endswith("keepdims") and tuple(numpy.asarray(res.x).shape) != (2, 1):
                     problems.append((f"sum-shape:{name}", f"keepdims shape {numpy.asarray(res.x).shape}"))
+                if name.endswith("keepdims11") and tuple(numpy.asarray(res.x).shape) != (1, 1):
+                    problems.append((f"sum-shape:{name}", f"keepdims shape {numpy.asarray(res.x).shape}, want (1, 1)"))
+                if name.endswith("keepdims13") and tuple(numpy.asarray(res.x).shape) != (1, 3):
+                    problems.append((f"sum-shape:{name}", f"keepdims shape {numpy.asarray(res.x).shape}, want (1, 3)"))
+                if "noaxis" in name and "keepdims" not in name and tuple(numpy.asarray(res.x).shape) != ():
+                    problems.append((f"sum-shape:{name}", f"sum over all axes has shape {numpy.asarray(res.x).shape}, want ()"))
                 if len(got) != len(want) or any(not close64(g, w, scale) for gg, ww in zip(got, want) for g, w in zip(gg, ww)):
                     problems.append((f"sum-value:{name}", f"{name} on {fl}:{sig}: got {got[:2]} want {want[:2]}"))
             # count_nonzero (NumPy): rows with an exactly-zero vector
@@ -192,6 +215,14 @@ def c17_run(ctx):
                     cn = int(numpy.count_nonzero(az))
                     if cn != 4:
                         problems.append(("count_nonzero:np", f"count_nonzero on {fl}:{sig} with 2 zero vectors of 6 gives {cn}"))
+                    az2 = az.reshape(2, 3)
+                    for cname, got_, want_ in (("2d-noaxis", numpy.count_nonzero(az2), 4), ("2d-axis0", numpy.count_nonzero(az2, axis=0).tolist(), [2, 0, 2]),
+                                               ("2d-axis1", numpy.count_nonzero(az2, axis=1).tolist(), [2, 2]),
+                                               ("2d-axis-1", numpy.count_nonzero(az2, axis=-1).tolist(), [2, 2])):
+                        n += 1
+                        got_ = int(got_) if not isinstance(got_, list) else got_
+                        if got_ != want_:
+                            problems.append((f"count_nonzero:np-{cname}", f"count_nonzero {cname} on {fl}:{sig} (zero vectors at flat 1 and 4 of 6) gives {got_}, want {want_}"))
                 except Exception as e:  # noqa: BLE001
                     problems.append(("count_nonzero-raises:np", f"{fl}:{sig}: {type(e).__name__}: {str(e)[:80]}"))
             # count_nonzero on boundary rows: exactly one non-zero Cartesian component (representable with z / t storage only)
@@ -227,6 +258,29 @@ def c17_run(ctx):
                     problems.append(("sum-type:ak", f"ak.sum on {fl}:{sig} returns {type(res).__name__}"))
                 elif len(got) != 4 or any(not close64(g, w, scale) for gg, ww in zip(got, want) for g, w in zip(gg, ww)):
                     problems.append(("sum-value:ak-jagged", f"ak.sum(axis=-1) on {fl}:{sig}: got {got} want {want}"))
+                for aname, f_, groups_ in (("ak-axis1", lambda: ak.sum(aj, axis=1), groups), ("ak-axisNone", lambda: ak.sum(aj, axis=None), [carts]),
+                                           ("ak-flat-axis0", lambda: ak.sum(C.ak_array(fl, sig, rows), axis=0), [carts]),
+                                           ("ak-method-axis1", lambda: aj.sum(axis=1) if hasattr(aj, "sum") else ak.sum(aj, axis=1), groups),
+                                           ("ak-axis-1-keepdims", lambda: ak.sum(aj, axis=-1, keepdims=True), groups)):
+                    n += 1
+                    try:
+                        res_ = f_()
+                    except Exception as e:  # noqa: BLE001
+                        problems.append((f"sum-raises:{aname}", f"{aname} on {fl}:{sig}: {type(e).__name__}: {str(e)[:80]}"))
+                        continue
+                    want_ = [fsum_cols(g, dim) if g else [0.0] * dim for g in groups_]
+                    cols_ = [ak.to_list(getattr(res_, c_)) for c_ in comp]
+                    if aname.endswith("keepdims"):
+                        if [len(x) for x in cols_[0]] != [1, 1, 1, 1]:
+                            problems.append((f"sum-shape:{aname}", f"keepdims list structure {[len(x) for x in cols_[0]]}"))
+                        cols_ = [[x[0] for x in cc] for cc in cols_]
+                    if not isinstance(cols_[0], list):
+                        cols_ = [[cc] for cc in cols_]
+                    got_ = list(zip(*cols_))
+                    if (isinstance(res_, vector.Vector) and isinstance(res_, vector.Momentum) != (fl == "m")) or not isinstance(res_, vector.Vector):
+                        problems.append((f"sum-type:{aname}", f"{aname} on {fl}:{sig} returns {type(res_).__name__}"))
+                    elif len(got_) != len(want_) or any(not close64(g, w, scale) for gg, ww in zip(got_, want_) for g, w in zip(gg, ww)):
+                        problems.append((f"sum-value:{aname}", f"{aname} on {fl}:{sig}: got {got_[:2]} want {want_[:2]}"))
                 cnt = ak.to_list(ak.count(aj, axis=-1))
                 cnt = cnt if not isinstance(cnt, dict) else list(cnt.values())[0]
                 if isinstance(cnt, list) and cnt and isinstance(cnt[0], dict):
@@ -245,9 +299,9 @@ COORD_FIELDS = {"x", "px", "y", "py", "rho", "pt", "phi", "z", "pz", "theta", "e
 
 
 def structure(a):
-    """list-structure fingerprint: nested lengths and None positions of the first coordinate column"""
+    """list-structure fingerprint: nested lengths and None positions — of EVERY field (they must all coincide: a vector is
+    missing as a whole), else ('FIELDS-DIFFER', per-field fingerprints)"""
     f = ak.fields(a)
-    col = a[f[0]] if f else a
 
     def go(x):
         if x is None:
@@ -255,7 +309,13 @@ def structure(a):
         if isinstance(x, list):
             return [go(y) for y in x]
         return 0
-    return go(ak.to_list(col))
+    if not f:
+        return go(ak.to_list(a))
+    per = {fld: go(ak.to_list(a[fld])) for fld in f}
+    first = per[f[0]]
+    if any(v != first for v in per.values()):
+        return ("FIELDS-DIFFER", sorted((k, str(v)) for k, v in per.items()))
+    return first
 
 
 def c18_run(ctx):
@@ -275,6 +335,8 @@ def c18_run(ctx):
             "nested3": ak.unflatten(ak.unflatten(flat, [3, 0, 4, 1]), [2, 2]),
             "option-record": ak.mask(flat, [True, False, True, True, False, True, True, True]),
             "option-list": ak.mask(ak.unflatten(withx, [3, 0, 4, 1]), [True, False, True, True]),
+            "option-inner": ak.unflatten(ak.mask(withx, [True, False, True, True, False, True, True, False]), [3, 0, 4, 1]),
+            "option-inner-nested": ak.unflatten(ak.unflatten(ak.mask(flat, [False, True, True, True, False, True, True, True]), [3, 0, 4, 1]), [1, 3]),
             "regular": ak.to_regular(ak.unflatten(flat, [4, 4]), axis=1),
             "empty": flat[:0],
         }
@@ -284,13 +346,18 @@ def c18_run(ctx):
         for lname, arr in layouts.items():
             extras = [f for f in ak.fields(arr) if f not in COORD_FIELDS]
             st0 = structure(arr)
-            for m, a in UN_VEC + [(s, []) for s in UN_SCALAR[:6]]:
+            impute = [("to_Vector3D", {"z": 2.5} if dim < 3 else {}), ("to_Vector4D", {"t": 7.5} if dim < 4 else {}),
+                      ("to_Vector4D", {"tau": 0.25} if dim < 4 else {}), ("to_4D", {}), ("to_3D", {}),
+                      ("to_xyzt", {}), ("to_rhophietatau", {}), ("to_xythetat", {"t": 3.25} if dim < 4 else {}),
+                      ("like", C.obj_vec("g", ("xy", "z", "t"), [1.0, 2.0, 3.0, 9.0])),
+                      ("like", C.obj_vec("m", ("rhophi", "eta"), [1.0, 2.0, 0.5])), ("like", C.obj_vec("g", ("xy",), [1.0, 2.0]))]
+            for m, a in UN_VEC + [(s, []) for s in UN_SCALAR[:6]] + impute:
                 if not hasattr(arr, m):
                     continue
                 n += 1
                 try:
                     at = getattr(arr, m)
-                    res = at(*a) if callable(at) else at
+                    res = (at(**a) if isinstance(a, dict) else at(a) if not isinstance(a, list) else at(*a)) if callable(at) else at
                 except Exception as e:  # noqa: BLE001
                     problems.append((f"raises:{lname}:{m}", f"{m} on layout {lname} ({fl}:{sig}): {type(e).__name__}: {str(e)[:80]}"))
                     continue
@@ -478,6 +545,39 @@ def c19_run(ctx):
                     problems.append(("asarray", f"asarray({fl}:{sig} object) = {type(pa).__name__} {pa.dtype}"))
             except Exception as ex:  # noqa: BLE001
                 problems.append(("asarray-raises", f"{fl}:{sig}: {type(ex).__name__}: {str(ex)[:80]}"))
+            # structured arrays whose fields are NOT in the canonical (azimuthal, longitudinal, temporal) order, and with extra
+            # non-coordinate fields before / between / after the coordinates: plain ndarray.view(VectorNumpyND) as the README shows
+            base = list(zip(names, range(len(names))))
+            layouts = [("reversed", list(reversed(base))), ("rotated", base[1:] + base[:1]),
+                       ("extra-first", [("charge", None)] + base), ("extra-middle", base[:1] + [("charge", None)] + base[1:]),
+                       ("extra-last", base + [("charge", None)])]
+            vcls = {True: {2: vector.MomentumNumpy2D, 3: vector.MomentumNumpy3D, 4: vector.MomentumNumpy4D},
+                    False: {2: vector.VectorNumpy2D, 3: vector.VectorNumpy3D, 4: vector.VectorNumpy4D}}[fl == "m"][dim]
+            for lname_, fields in layouts:
+                n += 1
+                dt = [(nm_, numpy.float64) for nm_, _ in fields]
+                raw = numpy.zeros(len(rows), dtype=dt)
+                for nm_, j in fields:
+                    raw[nm_] = [rw[j] for rw in rows] if j is not None else [float(7 + q) for q in range(len(rows))]
+                try:
+                    va = raw.view(vcls)
+                    k = r.randrange(len(rows))
+                    e = va[k]
+                    ok = isinstance(e, vector.backends.object.VectorObject) and C.sig_of(e) == tuple(sig) and \
+                        isinstance(e, vector.Momentum) == (fl == "m") and [float(x) for x in C.stored(e)] == [float(x) for x in rows[k]]
+                    if not ok:
+                        problems.append((f"int-index-layout:{lname_}", f"{fl}:{sig} fields {[f_ for f_, _ in fields]} index {k}: got {e!r}, element stores {rows[k]}"))
+                    for j, nm_ in enumerate(C.signames(sig)):
+                        if numpy.asarray(getattr(va, nm_)).tolist() != [rw[j] for rw in rows] or numpy.asarray(va[names[j]]).tolist() != [rw[j] for rw in rows]:
+                            problems.append((f"column-layout:{lname_}", f"{fl}:{sig} fields {[f_ for f_, _ in fields]}: coordinate {nm_} is not the stored column"))
+                    sl = va[1:]
+                    if type(sl) is not vcls or sl.dtype != va.dtype:
+                        problems.append((f"slice-layout:{lname_}", f"{fl}:{sig}: slice gives {type(sl).__name__} {sl.dtype}"))
+                    pk = pickle.loads(pickle.dumps(va))
+                    if type(pk) is not vcls or pk.dtype != va.dtype or pk.tobytes() != va.tobytes():
+                        problems.append((f"pickle-layout:{lname_}", f"{fl}:{sig}: pickle round trip gives {type(pk).__name__} {pk.dtype}"))
+                except Exception as ex:  # noqa: BLE001
+                    problems.append((f"layout-raises:{lname_}", f"{fl}:{sig} fields {[f_ for f_, _ in fields]}: {type(ex).__name__}: {str(ex)[:80]}"))
             if len(samples) < 2:
                 samples.append({"sig": sig, "flavor": fl, "dtype": str(a.dtype), "element0": rows[0]})
     return problems, {"index_expressions": n}, samples
